@@ -4,13 +4,17 @@
   Models: Pop.lean (population book-keeping), Select.lean (ring, tournament, ALPS
   selection), Replace.lean (replacement strategies, best-so-far), Tune.lean
   (tune_parameters / is_valid), Run.lean (the loop as a transition system),
+  Evo.lean (evolution::run as the interpretation of its extracted skeleton, summary::clear,
+  several runs on one evolution object, the guard tables of the strategies),
   Decide.lean (the deciders the driver runs on observations of real executions).
+  Gen.lean / GenEvo.lean are regenerated from the clang AST of the current sources on every run.
   Individuals are abstract (`α`), the evaluator is a function `α → F`, `F` carries a
   total preorder (`FitOrd`; C18 proves it for `fitness_t`).
 -/
 import Vita.C06.Decide
 import Vita.C06.Tune
 import Vita.C06.Gen
+import Vita.C06.GenEvo
 set_option linter.unusedSectionVars false
 
 namespace Vita.C06
@@ -221,57 +225,51 @@ theorem tune_keeps_user (kind : SearchKind) (lnF cubeF : Nat → Nat) (esLayers 
   · exact tuneSrc_keeps _ _ _ _ _ _
   · exact tuneGa_keeps _ _ _
 
-/-- the full clause: a consistent user environment is consistent and fully defined after tuning -/
+/-- the full clause: a consistent user environment is consistent and fully defined after tuning.
+    (`individuals = 1` is excluded: no `min_individuals` is both ≥ 2 and ≤ 1, `is_valid(false)`
+    nevertheless accepts the request – it cannot be completed by any tuning.) -/
 def TuneValidFull (P : Type) [ProbOps P] (kind : SearchKind) : Prop :=
   ∀ (lnF cubeF : Nat → Nat) (esLayers term0 dsize : Nat) (u : Env P),
     (∀ n, 8 < n → lnF n ≠ 0) → esLayers ≠ 0 → isValid false u = true → Untuned u →
     u.individuals ≠ 1 →
     isValid true (tune kind lnF cubeF esLayers term0 dsize u) = true
 
-/-- proved part: the tuned environment passes `is_valid(true)` as soon as the cross-field
-    checks hold on the tuned values (i.e. the defaults that fill the open parameters do not
-    contradict the parameters the user did set). -/
-theorem tune_valid_partial (laws : ProbLaws P) (kind : SearchKind) (lnF cubeF : Nat → Nat)
-    (hln : ∀ n, 8 < n → lnF n ≠ 0) (esLayers : Nat) (hL : esLayers ≠ 0) (term0 dsize : Nat) (u : Env P)
-    (hv : isValid false u = true) (hu : Untuned u) (hpop : u.individuals ≠ 1)
-    (hc : Cross (tune kind lnF cubeF esLayers term0 dsize u)) :
-    isValid true (tune kind lnF cubeF esLayers term0 dsize u) = true := by
+/-- **proved for all three search classes** (since the fix "defaults adjusted to the user's
+    settings": a default `code_length` above the user's `patch_length`, a default population not
+    below the user's `min_individuals` / `tournament_size`, a default tournament within the
+    population and the mating zone, a default mating zone not below the tournament) -/
+theorem tune_valid_full (laws : ProbLaws P) (kind : SearchKind) : TuneValidFull P kind := by
+  intro lnF cubeF esLayers term0 dsize u hln hL hv hu hpop
   cases kind
-  · exact tuneBase_valid laws _ hL _ _ hv hu hc
-  · exact tuneSrc_valid laws _ _ hln _ hL _ _ _ hv hu hc
-  · exact tuneGa_valid laws _ hL _ _ hv hu hpop hc
-
-/-- and only then: `is_valid(true)` after tuning is *equivalent* to the cross-field checks -/
-theorem tune_valid_iff (laws : ProbLaws P) (kind : SearchKind) (lnF cubeF : Nat → Nat)
-    (hln : ∀ n, 8 < n → lnF n ≠ 0) (esLayers : Nat) (hL : esLayers ≠ 0) (term0 dsize : Nat) (u : Env P)
-    (hv : isValid false u = true) (hu : Untuned u) (hpop : u.individuals ≠ 1) :
-    isValid true (tune kind lnF cubeF esLayers term0 dsize u) = true ↔
-      Cross (tune kind lnF cubeF esLayers term0 dsize u) :=
-  ⟨fun h => ((isValid_iff _ _).mp h).2.2,
-   tune_valid_partial laws kind lnF cubeF hln esLayers hL term0 dsize u hv hu hpop⟩
+  · exact tuneBase_valid laws _ hL _ _ hv hu hpop
+  · exact tuneSrc_valid laws _ _ hln _ hL _ _ _ hv hu hpop
+  · exact tuneGa_valid laws _ hL _ _ hv hu hpop
 
 /-- the user only fixes the population size -/
 def onlyIndividuals (n : Nat) : Env Int := { (Env.blank : Env Int) with individuals := n }
 
-/-- the full clause is FALSE for the code as it is: `individuals = 4`, everything else open, is a
-    consistent request; every search class fills `tournament_size = 5 > 4` and `is_valid(true)`
-    rejects the result (before fix a334a4f the GA/DE search also forced `min_individuals = 10 > 4`). -/
-theorem tune_valid_full_counterexample (kind : SearchKind) : ¬ TuneValidFull Int kind := by
-  intro h
-  have := h (fun _ => 2) (fun _ => 31) 1 2 1 (onlyIndividuals 4) (fun _ _ => by decide) (by decide)
-    (by decide) ⟨by decide, by decide, by decide⟩ (by decide)
-  cases kind <;> revert this <;> decide
-
-/-- non-vacuity of `tune_valid_partial`: with `individuals = 20` (or 5) all three searches end valid;
-    many terminals no longer push `patch_length` to `code_length` (fix a44e556) -/
+/-- non-vacuity, on the requests that used to end invalid: `individuals = 4` (default tournament 5),
+    `tournament_size = 30` (default mating zone 20), `min_individuals = 101` (default population 100),
+    `patch_length = 100` (default code length 100); many terminals (fix a44e556) -/
+example (kind : SearchKind) :
+    isValid true (tune kind (fun _ => 2) (fun _ => 31) 1 2 1 (onlyIndividuals 4)) = true ∧
+    (tune kind (fun _ => 2) (fun _ => 31) 1 2 1 (onlyIndividuals 4)).tournament = 4 := by
+  cases kind <;> decide
+example (kind : SearchKind) :
+    isValid true (tune kind (fun _ => 2) (fun _ => 31) 1 2 1 { (Env.blank : Env Int) with tournament := 30 }) = true ∧
+    isValid true (tune kind (fun _ => 2) (fun _ => 31) 1 2 9 { (Env.blank : Env Int) with minIndividuals := 101 }) = true ∧
+    isValid true (tune kind (fun _ => 2) (fun _ => 31) 1 2 1 { (Env.blank : Env Int) with patchLength := 100 }) = true := by
+  cases kind <;> decide
 example (kind : SearchKind) :
     isValid true (tune kind (fun _ => 2) (fun _ => 31) 1 2 1 (onlyIndividuals 20)) = true := by
   cases kind <;> decide
 example (kind : SearchKind) :
-    isValid true (tune kind (fun _ => 2) (fun _ => 31) 1 2 1 (onlyIndividuals 5)) = true := by
-  cases kind <;> decide
-example (kind : SearchKind) :
     isValid true (tune kind (fun _ => 2) (fun _ => 31) 1 400 12 (Env.blank : Env Int)) = true := by
+  cases kind <;> decide
+/-- the excluded request really cannot be completed -/
+example (kind : SearchKind) :
+    isValid false (onlyIndividuals 1) = true ∧
+    isValid true (tune kind (fun _ => 2) (fun _ => 31) 1 2 1 (onlyIndividuals 1)) = false := by
   cases kind <;> decide
 
 end tune
@@ -349,6 +347,186 @@ theorem selection_deciders_sound (fit : Coord → F) (key : Coord → Bool × F)
     (membersOKB p ret = true → MembersOK p ret) :=
   ⟨tournamentOKB_sound _ _ _ _ _, alpsSelOKB_sound _ _ _, membersOKB_sound _ _⟩
 
+/-! ## (6) what the CURRENT sources say (GenEvo.lean, regenerated from the clang AST on every run) -/
+
+/-- is the member `f` of `summary<T>` reset by `clear()`?  (`best` may be reset member by member) -/
+def clearCovers (sets : List (String × String)) (f : String) : Bool :=
+  (sets.lookup f).isSome ||
+  (f == "best" && (sets.lookup "best.solution").isSome &&
+    ((sets.lookup "best.score").isSome || (sets.lookup "best.score.fitness").isSome))
+
+/-- `summary<T>`: the members are the ones the model knows, the constructor starts `gen` and
+    `last_imp` at 0, and `clear()` resets EVERY member – `best`, `gen := 0`, `last_imp := 0` in
+    particular (the table the model's `clearSumm` / `startRun` read).  Stated on what `clear()`
+    achieves, not on how it is written: `*this = summary<T>()` and a complete member-wise reset
+    both satisfy it, a reset that forgets a member does not. -/
+theorem summary_tables_match_source :
+    GenEvo.summaryFields = Model.summaryFields ∧
+    GenEvo.ctorInits.lookup "gen" = some "0" ∧ GenEvo.ctorInits.lookup "last_imp" = some "0" ∧
+    clearTblOf GenEvo.clearSets GenEvo.clearNats = Model.clearTbl ∧
+    GenEvo.summaryFields.all (clearCovers GenEvo.clearSets) = true :=
+  ⟨by decide, by decide, by decide, by decide, by decide⟩
+
+/-- the two ways of writing a complete `clear()` give the model's table; the seeded in-place
+    variant that forgets `last_imp` does not -/
+example : clearTblOf Model.clearSets Model.clearNats = Model.clearTbl := by decide
+example : clearTblOf [("az", "clear()"), ("best.score", "model_measurements()"), ("best.solution", "T()"),
+    ("crossovers", "0"), ("elapsed", "0"), ("gen", "0"), ("last_imp", "0"), ("mutations", "0")]
+    [("crossovers", 0), ("elapsed", 0), ("gen", 0), ("last_imp", 0), ("mutations", 0)] = Model.clearTbl := by decide
+example : clearTblOf [("az", "clear()"), ("best.score", "model_measurements()"), ("best.solution", "T()"),
+    ("crossovers", "0"), ("elapsed", "0"), ("gen", "0"), ("mutations", "0")]
+    [("crossovers", 0), ("elapsed", 0), ("gen", 0), ("mutations", 0)] ≠ Model.clearTbl := by decide
+
+/-- the statement skeleton of `evolution<T,ES>::run` (clear; best = pop[{0,0}]; fitness = eva(best);
+    es.init(); for (gen = 0; …; ++gen) { [shake]; stats; for (k…) { select; recombine; replace }
+    es.after_generation(); callback }; return stats) and its loop conditions are the ones the
+    interpreter `evoRunSk` is proved about; `run(unsigned)` runs without shake -/
+theorem run_skeleton_matches_source :
+    GenEvo.skel = Model.skel ∧ GenEvo.genLoopCond = Model.genLoopCond ∧
+    GenEvo.stepLoopCond = Model.stepLoopCond ∧ GenEvo.noShakeDefault = true :=
+  ⟨by decide, by decide, by decide, by decide⟩
+
+/-- the bodies of the selection / replacement strategies, of ALPS' `after_generation` and of
+    `std_es::stop_condition` (every assignment, call and return with the conditions it is nested in)
+    are the tables the model functions are proved to interpret (Evo.lean) -/
+theorem strategy_tables_match_source :
+    GenEvo.replTournamentSrc = Model.replTournamentSrc ∧ GenEvo.replFamilySrc = Model.replFamilySrc ∧
+    GenEvo.replAlpsSrc = Model.replAlpsSrc ∧ GenEvo.alpsTryAddSrc = Model.alpsTryAddSrc ∧
+    GenEvo.alpsMoveUpSrc = Model.alpsMoveUpSrc ∧ GenEvo.selTournament = Model.selTournament ∧
+    GenEvo.selAlpsPickup = Model.selAlpsPickup ∧ GenEvo.selAlps = Model.selAlps ∧
+    GenEvo.selRandom = Model.selRandom ∧ GenEvo.alpsAfterGenSrc = Model.alpsAfterGenSrc ∧
+    GenEvo.stdStopSrc = Model.stdStopSrc :=
+  ⟨by decide, by decide, by decide, by decide, by decide, by decide, by decide, by decide, by decide,
+   by decide, by decide⟩
+
+set_option maxRecDepth 8192 in
+/-- the bodies of the three `tune_parameters` are the ones Tune.lean models (`tuneBase`, `tuneSrc`,
+    `tuneGa`): same guards (`!constrained.x`), same default expressions, same order -/
+theorem tune_bodies_match_source :
+    GenEvo.tuneBaseSrc = Model.tuneBaseSrc ∧ GenEvo.tuneSrcSrc = Model.tuneSrcSrc ∧
+    GenEvo.tuneGaSrc = Model.tuneGaSrc :=
+  ⟨by decide, by decide, by decide⟩
+
+omit [DecidableEq α] [DecidableEq F] in
+/-- the best-so-far update of the model is the interpretation of the "new best" block of the
+    source (same block in all three replacement strategies): it fires iff
+    `fit_off > s->best.score.fitness` (strictly) and then sets last_imp := gen, solution, fitness -/
+theorem best_update_from_source (eval : α → F) (s : Summ α F) (off : α) (elitism : Bool) :
+    (GenEvo.replTournamentSrc.drop 1 = GenEvo.replFamilySrc.drop 6 ∧
+     GenEvo.replTournamentSrc.drop 1 = GenEvo.replAlpsSrc.drop 3) ∧
+    updBest eval s off =
+      if (guardOfSet GenEvo.replTournamentSrc "s->best.score.fitness").eval
+           (replVal s.bestFit (eval off) [] elitism) noAtoms
+      then { s with lastImp := s.gen, best := off, bestFit := eval off } else s := by
+  refine ⟨⟨by decide, by decide⟩, ?_⟩
+  rw [show guardOfSet GenEvo.replTournamentSrc "s->best.score.fitness" = Model.bestGuard by decide]
+  exact updBest_is_table eval s off elitism
+
+omit [DecidableEq α] [DecidableEq F] in
+/-- `replacement::tournament` / `family_competition` (elitist branch) overwrite a member exactly
+    when the guard of the source's assignment `pop[…] = offspring[0]` holds -/
+theorem replacement_guards_from_source (eval : α → F) (elitism : Bool) (st : St α F) :
+    (∀ (parents : List Coord) (off : α) (rep : Coord) (old : α),
+      parents.getLast? = some rep → st.pop.get? rep = some old →
+      (replTournament eval elitism st parents off).pop =
+        if (guardOfSet GenEvo.replTournamentSrc "pop_[parent.back()]").eval
+             (replVal st.sum.bestFit (eval off) [("eva_(pop_[parent.back()])", eval old)] elitism) noAtoms
+        then st.pop.assign rep off else st.pop) ∧
+    (∀ (b1 b2 : Bool) (p0 p1 : Coord) (off x0 x1 : α), st.pop.get? p0 = some x0 → st.pop.get? p1 = some x1 →
+      (familyCompetition eval true b1 b2 st p0 p1 off).pop =
+        if (guardOfSet GenEvo.replFamilySrc ("pop_[parent[" ++ Model.worstIdx ++ "]]")).eval
+             (replVal st.sum.bestFit (eval off)
+               [(Model.fitWorst, if lt (eval x0) (eval x1) then eval x0 else eval x1)] true) noAtoms
+        then st.pop.assign (if lt (eval x0) (eval x1) then p0 else p1) off else st.pop) ∧
+    (∀ (ins : Bool) (off : α),
+      decide (lt st.sum.bestFit (eval off) = true ∧ ins = false ∧ elitism = true) =
+        (guardOfCall GenEvo.replAlpsSrc "try_add_to_layer((pop_.layers() - 1), offspring[0])").eval
+          (replVal st.sum.bestFit (eval off) [] elitism) (assoc [("ins", ins)] false)) := by
+  rw [strategy_tables_match_source.1, strategy_tables_match_source.2.1, strategy_tables_match_source.2.2.1]
+  exact ⟨fun parents off rep old h1 h2 => replTournament_is_table eval elitism st parents off rep h1 old h2,
+    fun b1 b2 p0 p1 off x0 x1 h0 h1 => familyCompetition_is_table eval b1 b2 st p0 p1 off x0 x1 h0 h1,
+    fun ins off => replAlps_retry_is_table eval elitism ins st off⟩
+
+omit [DecidableEq F] in
+/-- the decisions of `try_add_to_layer` (layer not full; kill-tournament step; accept the incoming
+    individual – with `>=` –; push the displaced one up) are the guards of the source -/
+theorem try_add_guards_from_source (mAge ageInc ageWorst ageX size allowed layer nLayers : Nat)
+    (fInc fWorst fX : F) :
+    let v := tryAddVal mAge ageInc ageWorst ageX size allowed layer nLayers fInc fWorst fX
+    decide (size < allowed) = (guardOfCall GenEvo.alpsTryAddSrc "pop_.add_to_layer(layer, incoming)").eval v noAtoms ∧
+    decide ((ageX > ageWorst ∧ ageX > mAge) ∨ (ageWorst ≤ mAge ∧ ageX ≤ mAge ∧ lt fX fWorst = true)) =
+      ((guardOfSet GenEvo.alpsTryAddSrc "c_worst").eval v (assoc [("rounds--", true)] false)) ∧
+    decide ((ageInc ≤ mAge ∧ ageWorst > mAge) ∨ ((ageInc ≤ mAge ∨ ageWorst > mAge) ∧ le fWorst fInc = true)) =
+      (guardOfSet GenEvo.alpsTryAddSrc "pop_[c_worst]").eval v noAtoms ∧
+    (decide ((ageInc ≤ mAge ∧ ageWorst > mAge) ∨ ((ageInc ≤ mAge ∨ ageWorst > mAge) ∧ le fWorst fInc = true)) &&
+      decide (layer + 1 < nLayers)) =
+      (guardOfCall GenEvo.alpsTryAddSrc "try_add_to_layer((layer + 1), pop_[c_worst])").eval v noAtoms := by
+  rw [strategy_tables_match_source.2.2.2.1]
+  exact tryAdd_is_table mAge ageInc ageWorst ageX size allowed layer nLayers fInc fWorst fX
+
+omit [DecidableEq F] in
+/-- tournament selection shifts a prefix element iff `j && new_fitness > eva(pop[ret[j-1]])`
+    (strictly), ALPS `pickup` steps one layer down iff `l > 0 && !random::boolean(p)` -/
+theorem selection_guards_from_source (fit : Coord → F) (x y : Coord) (l : Nat) (same : Bool) (d : Nat) :
+    lt (fit y) (fit x) =
+      (guardOfSet GenEvo.selTournament "j").eval
+        (mixCmp [("eva_(pop_[new_coord])", fit x), ("eva_(pop_[ret[(j - 1)]])", fit y)]
+          [("i", 0), ("pop_.get_problem().env.tournament_size", 1)] [])
+        (assoc [("j", true)] false) ∧
+    (alpsPickup l same d).1 =
+      if (guardOfSet GenEvo.selAlpsPickup "l").eval (mixCmp ([] : List (String × Int)) [("l", l), ("0", 0)] [])
+           (assoc [("boolean(p)", same)] false)
+      then l - 1 else l := by
+  rw [strategy_tables_match_source.2.2.2.2.2.1, strategy_tables_match_source.2.2.2.2.2.2.1]
+  exact ⟨insR_is_table fit x y, alpsPickup_is_table l same d⟩
+
+/-! ## (7) several runs on one evolution object, `evolution::run` read from its skeleton -/
+
+/-- `summary::clear()` as the current sources define it (GenEvo) -/
+def srcClear : ClearTbl := clearTblOf GenEvo.clearSets GenEvo.clearNats
+
+omit [DecidableEq α] [DecidableEq F] in
+/-- **across runs**: starting from a state that satisfies the run invariant, after any sequence of
+    run steps and restarts (`evolution::run` called again on the same object: `stats_.clear()` as
+    the sources define it, best = pop[{0,0}], gen = 0, population carried over) the invariant
+    still holds – in particular `last_imp ≤ gen` in every state of every run. -/
+theorem last_imp_le_gen_runs (cfg : Cfg α F) (d : α) (df : F) (hd : cfg.wf d = true) (shape0 : List Nat)
+    (st st' : St α F) (hi : RunInv cfg shape0 st) (hr : MReach cfg srcClear d df st st') :
+    st'.sum.lastImp ≤ st'.sum.gen ∧ RunInv cfg shape0 st' := by
+  have ok : ClearOK cfg srcClear d := ⟨by decide, hd⟩
+  have := mreach_inv cfg srcClear d df ok shape0 st st' hi hr
+  exact ⟨this.last_imp, this⟩
+
+omit [DecidableEq α] [DecidableEq F] in
+/-- the interpreter of the SOURCE skeleton with the SOURCE `clear()`, run any number of times on
+    one object with arbitrary draws / offspring (offspring well-formed): the invariant holds after
+    every run, and inside each run the best-so-far fitness never decreases from the run's start. -/
+theorem source_runs_gen_inv (e : EvoCtx α F) (htbl : e.tbl = srcClear) (lok : LoopOK e.loop)
+    (hd : e.loop.cfg.wf e.dflt = true) (shape0 : List Nat)
+    (runs : List (List (List (StepIn α) × AlpsAG))) (st : St α F) (hi : RunInv e.loop.cfg shape0 st)
+    (hoff : ∀ gens ∈ runs, ∀ g ∈ gens, ∀ i ∈ g.1, e.loop.cfg.wf i.off = true) :
+    RunInv e.loop.cfg shape0 (evoRunsSk GenEvo.skel e st runs) ∧
+    ∀ gens, (∀ g ∈ gens, ∀ i ∈ g.1, e.loop.cfg.wf i.off = true) →
+      RunInv e.loop.cfg shape0 (evoRunSk GenEvo.skel e st gens) ∧
+      le (startRun GenEvo.skel e st).sum.bestFit (evoRunSk GenEvo.skel e st gens).sum.bestFit = true := by
+  have ok : ClearOK e.loop.cfg e.tbl e.dflt := ⟨by rw [htbl]; decide, hd⟩
+  rw [run_skeleton_matches_source.1]
+  refine ⟨mreach_inv _ _ _ _ ok shape0 _ _ hi (evoRunsSk_mreach e lok ok shape0 runs st hi hoff), ?_⟩
+  intro gens hg
+  have h := evoRunSk_mreach e lok ok shape0 gens st hi hg
+  exact ⟨mreach_inv _ _ _ _ ok shape0 _ _ hi h.1, (run_best_monotone _ _ _ h.2).1⟩
+
+/-- soundness of the session monitor: the driver accepted the first state and every observed
+    transition (run steps, generation boundaries, restarts checked against the SOURCE `clear()`)
+    ⇒ every observed state of every run satisfies the run invariant. -/
+theorem monitor_sound_runs (cfg : Cfg α F) (d : α) (df : F) (hd : cfg.wf d = true) (shape0 : List Nat)
+    (st : St α F) (tr : List (MEvent α × St α F)) (h0 : runInvB cfg shape0 st = true)
+    (ht : mtraceOKB cfg srcClear d df st tr = true) :
+    ∀ s ∈ tr.map (·.2), RunInv cfg shape0 s := by
+  intro s hs
+  exact (last_imp_le_gen_runs cfg d df hd shape0 st s (runInvB_sound _ _ _ h0)
+    (mtraceOKB_sound cfg srcClear d df st tr ht s hs)).2
+
 /-! ### non-vacuity of the run-level hypotheses -/
 
 /-- a concrete configuration, state and one-iteration model run: the invariant holds before,
@@ -372,5 +550,18 @@ example : transB exCfg (.repl [(0, 2)] ⟨-1, 0, 14, true⟩) exSt
 example : transB exCfg (.repl [(0, 2)] ⟨-9, 0, 14, true⟩) exSt
     ⟨⟨[[⟨-5, 0, 11, true⟩, ⟨-3, 0, 12, true⟩, ⟨-9, 0, 14, true⟩]], [3]⟩, exSt.sum⟩ = false := by
   decide
+
+/-- a second run on the same object: the first run ended with last_imp = 3 at gen = 7; the
+    restart predicted from the source tables puts last_imp back to 0 -/
+def exEvo : EvoCtx Ind Int := ⟨exLoop, srcClear, ⟨0, 0, 0, true⟩, 0⟩
+def exEnd : St Ind Int := ⟨exSt.pop, ⟨⟨-3, 0, 12, true⟩, -3, 3, 7⟩⟩
+example : runInvB exCfg [3] exEnd = true := by decide
+example : (startRun GenEvo.skel exEvo exEnd).sum = ⟨⟨-5, 0, 11, true⟩, -5, 0, 0⟩ := by decide
+example : restartB exCfg srcClear exEvo.dflt 0 exEnd (startRun GenEvo.skel exEvo exEnd) = true := by decide
+example : (evoRunsSk GenEvo.skel exEvo exSt [[([exStep], ⟨[], [], none, []⟩)], [([exStep], ⟨[], [], none, []⟩)]]).sum =
+    ⟨⟨-1, 0, 14, true⟩, -1, 0, 1⟩ := by decide
+example : mtraceOKB exCfg srcClear exEvo.dflt 0 exEnd [(.restart, startRun GenEvo.skel exEvo exEnd)] = true := by decide
+/-- a `clear()` that forgets `last_imp` is rejected by the obligation `ClearOK` -/
+example : (clearTblOf [("gen", "0"), ("best", "")] [("gen", 0)]).lastImp = none := by decide
 
 end Vita.C06
